@@ -18,7 +18,9 @@ package main
 //            presents the case's certificate kind; observable: did the client's query get the upstream's answer.
 //   role=ls: a tls/https/quic listener with the case's options; a client presenting the case's certificate kind
 //            (or none); observable: was the query served.
-//   case:   <id> role=<up|ls> proto=<tls|https|quic> ca=<0|1> ck=<0|1> ins=<0|1> vc=<0|1> peer=<kind|absent> srvreq=<0|1>
+//   The process's SYSTEM trust store is the harness' own (c17pki sets SSL_CERT_FILE / SSL_CERT_DIR before crypto/x509
+//   first loads it): peer kinds sysroot / sysrootwrongname chain to it and not to the configured ca.
+//   case:   <id> role=<up|ls> proto=<tls|https|quic|h3(up only)> ca=<0|1> ck=<0|1> ins=<0|1> vc=<0|1> peer=<kind|absent> srvreq=<0|1>
 //   result: start=<ok|err> x=<ok|fail>       (role=up)
 //           start=<ok|err> served=<0|1>      (role=ls)
 
@@ -100,6 +102,11 @@ type c17PKI struct {
 	caFile             string
 	caPool             *x509.CertPool
 	seq                atomic.Int64
+	// the process's SYSTEM trust store, under the harness' control (kinds tls / tlscfg): one "system" CA
+	sysCert  *x509.Certificate
+	sysKey   *ecdsa.PrivateKey
+	sysPool  *x509.CertPool
+	sysRoots bool // SSL_CERT_FILE / SSL_CERT_DIR point at the harness' store and crypto/x509 loaded exactly it
 }
 
 var (
@@ -130,15 +137,98 @@ func c17newCA(cn string) (*x509.Certificate, *ecdsa.PrivateKey, []byte, error) {
 	return c, key, pem.EncodeToMemory(&pem.Block{Type: "CERTIFICATE", Bytes: der}), err
 }
 
+// c17WorkDir makes a private directory for this process under the build directory (next to the implrun binary) and
+// removes the directories left by processes that no longer exist.
+func c17WorkDir() (string, error) {
+	exe, err := os.Executable()
+	if err != nil {
+		return "", err
+	}
+	base := filepath.Join(filepath.Dir(exe), "c17pki")
+	if err := os.MkdirAll(base, 0o755); err != nil {
+		return "", err
+	}
+	if ents, err := os.ReadDir(base); err == nil {
+		for _, e := range ents {
+			if pid, err := strconv.Atoi(e.Name()); err == nil && pid != os.Getpid() {
+				if _, err := os.Stat(filepath.Join("/proc", e.Name())); err != nil {
+					os.RemoveAll(filepath.Join(base, e.Name()))
+				}
+			}
+		}
+	}
+	dir := filepath.Join(base, strconv.Itoa(os.Getpid()))
+	os.RemoveAll(dir)
+	return dir, os.MkdirAll(dir, 0o755)
+}
+
+// c17SysRootsKind: the kinds whose cases depend on what the process's system trust store contains.
+func c17SysRootsKind() bool {
+	return len(os.Args) > 1 && (os.Args[1] == "tls" || os.Args[1] == "tlscfg")
+}
+
+// c17PoolIs: pool holds exactly the given certificates (compared by raw subject; every harness CA has its own).
+func c17PoolIs(pool *x509.CertPool, certs ...*x509.Certificate) bool {
+	if pool == nil {
+		return false
+	}
+	subj := pool.Subjects() //nolint:staticcheck // harness pools are never lazily loaded system pools
+	if len(subj) != len(certs) {
+		return false
+	}
+	for _, c := range certs {
+		found := false
+		for _, s := range subj {
+			if bytes.Equal(s, c.RawSubject) {
+				found = true
+			}
+		}
+		if !found {
+			return false
+		}
+	}
+	return true
+}
+
 func c17pki() (*c17PKI, error) {
 	c17pkiOnce.Do(func() {
 		p := &c17PKI{}
-		dir, err := os.MkdirTemp("", "verif-c17-")
+		dir, err := c17WorkDir()
 		if err != nil {
 			c17pkiErr = err
 			return
 		}
 		p.dir = dir
+		// The system trust store of THIS process: crypto/x509 loads it once, on first use, from SSL_CERT_FILE and
+		// SSL_CERT_DIR.  Point both at the harness' own store before anything can have asked for it.
+		var sysPEM []byte
+		p.sysCert, p.sysKey, sysPEM, err = c17newCA("verif C17 system root CA")
+		if err != nil {
+			c17pkiErr = err
+			return
+		}
+		p.sysPool = x509.NewCertPool()
+		p.sysPool.AddCert(p.sysCert)
+		if c17SysRootsKind() {
+			sysFile := filepath.Join(dir, "system-roots.pem")
+			sysDir := filepath.Join(dir, "system-roots.d")
+			if err := os.WriteFile(sysFile, sysPEM, 0o600); err != nil {
+				c17pkiErr = err
+				return
+			}
+			if err := os.MkdirAll(sysDir, 0o755); err != nil {
+				c17pkiErr = err
+				return
+			}
+			os.Setenv("SSL_CERT_FILE", sysFile)
+			os.Setenv("SSL_CERT_DIR", sysDir)
+			sp, err := x509.SystemCertPool()
+			if err != nil || !c17PoolIs(sp, p.sysCert) {
+				c17pkiErr = fmt.Errorf("the system trust store of this process is not under the harness' control (%v)", err)
+				return
+			}
+			p.sysRoots = true
+		}
 		var caPEM []byte
 		p.caCert, p.caKey, caPEM, err = c17newCA("verif C17 configured CA")
 		if err != nil {
@@ -163,7 +253,8 @@ func c17pki() (*c17PKI, error) {
 }
 
 // leaf makes a certificate of the given kind for the given name (DNS name or IP literal text).
-// kinds: valid | wrongname | unknownca | expired | selfsigned
+// kinds: valid | wrongname | unknownca | expired | selfsigned | sysroot | sysrootwrongname
+// (sysroot*: issued by the CA of the harness-controlled SYSTEM store, which is never the configured ca)
 func (p *c17PKI) leaf(kind, name string) (tls.Certificate, []byte, []byte, error) {
 	key, err := ecdsa.GenerateKey(elliptic.P256(), rand.Reader)
 	if err != nil {
@@ -178,7 +269,7 @@ func (p *c17PKI) leaf(kind, name string) (tls.Certificate, []byte, []byte, error
 		ExtKeyUsage:           []x509.ExtKeyUsage{x509.ExtKeyUsageServerAuth, x509.ExtKeyUsageClientAuth},
 		BasicConstraintsValid: true,
 	}
-	if kind == "wrongname" {
+	if kind == "wrongname" || kind == "sysrootwrongname" {
 		name = "wrong.invalid"
 	}
 	if ip := net.ParseIP(name); ip != nil {
@@ -190,6 +281,8 @@ func (p *c17PKI) leaf(kind, name string) (tls.Certificate, []byte, []byte, error
 	switch kind {
 	case "unknownca":
 		parent, pkey = p.otherCert, p.otherKey
+	case "sysroot", "sysrootwrongname":
+		parent, pkey = p.sysCert, p.sysKey
 	case "expired":
 		tmpl.NotBefore = time.Now().Add(-48 * time.Hour)
 		tmpl.NotAfter = time.Now().Add(-24 * time.Hour)
@@ -254,6 +347,9 @@ type c17Seen struct {
 	hostSet bool
 	queries int
 	conns   int
+	// behaviour switches of the fake servers (kind sockets)
+	udpTC   bool // every UDP reply is truncated (TC=1, no answer): a udp upstream must retry over TCP
+	oneShot bool // a connection serves ONE query and is closed: the next exchange has to dial again
 }
 
 func (s *c17Seen) noteSNI(n string) {
@@ -292,6 +388,9 @@ func c17ServeStream(c io.ReadWriter, seen *c17Seen) {
 		if _, err := c.Write(append(out, r...)); err != nil {
 			return
 		}
+		if seen.oneShot {
+			return
+		}
 	}
 }
 
@@ -319,6 +418,16 @@ func c17ServeUDP(pc net.PacketConn, seen *c17Seen) {
 		}
 		seen.noteConn()
 		seen.noteQuery()
+		if seen.udpTC {
+			if r := hx.BuildReply(append([]byte(nil), buf[:n]...), true, 0, c17mark, 60); r != nil {
+				if qe := hx.QuestionEnd(r); qe > 0 && qe <= len(r) {
+					r = r[:qe] // header + question only
+					r[6], r[7] = 0, 0
+				}
+				pc.WriteTo(r, addr)
+			}
+			continue
+		}
 		if r := c17Reply(append([]byte(nil), buf[:n]...)); r != nil {
 			pc.WriteTo(r, addr)
 		}
@@ -359,8 +468,12 @@ func c17ServeDoQ(l *quic.Listener, seen *c17Seen) {
 					return
 				}
 				go func() {
-					defer s.Close()
 					c17ServeStream(s, seen)
+					s.Close()
+					if seen.oneShot {
+						// let the reply drain, then drop the whole connection
+						time.AfterFunc(60*time.Millisecond, func() { c.CloseWithError(0, "") })
+					}
 				}()
 			}
 		}()
@@ -428,6 +541,9 @@ func c17StartServer(sc, laddr string, cert *tls.Certificate, seen *c17Seen, clie
 			return "", nil, err
 		}
 		hs := &http.Server{Handler: c17DoH{seen}, ReadTimeout: 5 * time.Second, ErrorLog: nullLogger}
+		if seen.oneShot {
+			hs.SetKeepAlivesEnabled(false)
+		}
 		if sc == "https" {
 			hs.TLSConfig = c17ServerTLS(*cert, seen, []string{"h2", "http/1.1"}, clientCAs)
 			go hs.ServeTLS(l, "", "")
@@ -804,7 +920,7 @@ func tlsUpstreamCase(f map[string]string) string {
 		return "HARNESS-ERROR leaf " + err.Error()
 	}
 	uurl := proto + "://localhost:" + port
-	if proto == "https" {
+	if proto == "https" || proto == "h3" {
 		uurl += "/dns-query"
 	}
 	lname := fmt.Sprintf("@verif-c17-%d-%d", os.Getpid(), c17unixSeq.Add(1))
